@@ -493,7 +493,7 @@ impl Prop for C08 {
             let hs = if stage == 0 { Histories::new(tier) } else { Histories::cross_thread(tier) };
             let stage_name = if stage == 0 { "histories" } else { "histories-other-thread" };
             for i in a..b {
-                out.idx = Some(i);
+                out.at(i);
                 let h = &hs.get(i);
                 let text = h.text();
                 let mut world = World::builtin();
@@ -530,7 +530,7 @@ impl Prop for C08 {
         } else {
             let ts = tables();
             for i in a..b {
-            out.idx = Some(i);
+            out.at(i);
                 run_table(&ts[i as usize], out);
                 out.nontrivial.insert(hash64(&format!("{:?}", ts[i as usize].ops)));
                 out.count("states", 1);
